@@ -44,3 +44,11 @@ pub mod stat {
         rrtk::static_reference!(u8, 5)
     }
 }
+/// The argument of `to_dyn!` is an expression with an effect (a call): the expansion must evaluate it exactly once - the result
+/// has to alias the very Reference the caller handed over, not the value of a second evaluation.
+pub fn produce() -> rrtk::Reference<Foo> {
+    unimplemented!()
+}
+pub fn conv_expr() -> rrtk::Reference<dyn Tr> {
+    rrtk::to_dyn!(Tr, produce())
+}
